@@ -165,6 +165,10 @@ func (f *Frame) modKeysStatic(con *Contract, callee *ssa.Function, sig *types.Si
 		if m == "fresh" || m == "nothing" {
 			continue
 		}
+		if strings.HasPrefix(m, "since(") {
+			keys["*"] = true
+			continue
+		}
 		ex, err := parser.ParseExpr(m)
 		if err != nil {
 			keys["*"] = true
@@ -451,11 +455,61 @@ func (f *Frame) autoInvariants(l *Loop, phi *ssa.Phi, init ssa.Value) []string {
 			return nil
 		}
 	}
-	name := phi.Comment
-	if name == "" {
-		name = phi.Name()
+	name := phi.Name()
+	out := []string{fmt.Sprintf("%d <= %s", c.Int64(), name)}
+	// upper bound from the loop condition in the header: phi < X or phi+1 < X with X loop-invariant
+	if len(l.Header.Instrs) == 0 {
+		return out
 	}
-	return []string{fmt.Sprintf("%d <= %s", c.Int64(), name)}
+	iff, ok := l.Header.Instrs[len(l.Header.Instrs)-1].(*ssa.If)
+	if !ok {
+		return out
+	}
+	cond, ok := iff.Cond.(*ssa.BinOp)
+	if !ok || cond.Op.String() != "<" || !l.Body[l.Header.Succs[0]] {
+		return out
+	}
+	outside := func(v ssa.Value) bool {
+		switch x := v.(type) {
+		case *ssa.Const, *ssa.Parameter, *ssa.FreeVar:
+			return true
+		case ssa.Instruction:
+			return !l.Body[x.Block()]
+		}
+		return false
+	}
+	var bound string
+	switch y := cond.Y.(type) {
+	case *ssa.Const:
+		if y.Value != nil {
+			bound = fmt.Sprint(y.Int64())
+		}
+	case *ssa.Call:
+		if b, isB := y.Call.Value.(*ssa.Builtin); isB && b.Name() == "len" && outside(y.Call.Args[0]) {
+			if _, isMap := y.Call.Args[0].Type().Underlying().(*types.Map); !isMap {
+				if _, isC := y.Call.Args[0].(*ssa.Const); !isC {
+					bound = "len(" + y.Call.Args[0].Name() + ")"
+				}
+			}
+		} else if outside(y) {
+			bound = y.Name()
+		}
+	default:
+		if outside(cond.Y) {
+			bound = cond.Y.Name()
+		}
+	}
+	if bound == "" {
+		return out
+	}
+	if cond.X == phi {
+		out = append(out, fmt.Sprintf("%s <= %s || %s == %d", name, bound, name, c.Int64()))
+	} else if bo, isBo := cond.X.(*ssa.BinOp); isBo && bo.X == phi && bo.Op.String() == "+" {
+		if k, isK := bo.Y.(*ssa.Const); isK && k.Value != nil && k.Int64() == 1 {
+			out = append(out, fmt.Sprintf("%s < %s || %s == %d", name, bound, name, c.Int64()))
+		}
+	}
+	return out
 }
 
 func (f *Frame) enterLoop(l *Loop, b *ssa.BasicBlock, predBlocks []*ssa.BasicBlock, conds []Term, preds []*State, entry *State, reach Term) {
